@@ -889,7 +889,25 @@ class Interp:
             return VBuiltin('spec:' + n)
         if ('builtin_' + n) in self.spec_funcs:
             return VBuiltin(n)
+        if self.segment_mode and getattr(self, 'segment_start', 0) > 0 and not self.spec_mode and n in self.assigned_locals(fr):
+            # a resumed coroutine frame: a local bound before the suspension point that the contract did not describe.
+            # Its value is unknown (over-approximation): an opaque datum, the same one for the rest of the path.
+            v = VElem(z3.Const(sym.fresh_name('unknown_local_' + n), sym.Elem))
+            fr.locals[n] = v
+            return v
         raise Unsupported('unknown name %s in %s' % (n, fr.qual))
+
+    def assigned_locals(self, fr):
+        """names assigned anywhere in the function the frame belongs to"""
+        try:
+            rel, node = self.index.function(fr.qual)
+        except KeyError:
+            return set()
+        out = set()
+        for n in ast.walk(node):
+            if isinstance(n, ast.Name) and isinstance(n.ctx, ast.Store):
+                out.add(n.id)
+        return out
 
     def expr_Tuple(self, e, fr):
         items = []
@@ -948,6 +966,14 @@ class Interp:
                 return cv
             if (cell.cls + '.' + name) in self.summaries:
                 return VBound(obj, name)
+            if not self.spec_mode and self.index.assigns_attr(cell.cls, name):
+                # an instance attribute the class does set somewhere but the contract's pre-state does not describe: unknown
+                # opaque value (over-approximation), remembered in the object so that later reads agree
+                v = VElem(z3.Const(sym.fresh_name('unknown_attr_' + name), sym.Elem))
+                self.st.heap[obj.loc] = cell.with_field(name, v) if hasattr(cell, 'with_field') else cell
+                if not hasattr(cell, 'with_field'):
+                    cell.fields[name] = v
+                return v
             raise Unsupported('attribute %s of %s' % (name, cell.cls))
         if isinstance(obj, VRef):
             if obj.cls:
@@ -2115,6 +2141,7 @@ def _segment_methods():
         from .repoindex import find_loops
         frame.loop_ids = {id(n): i for i, n in enumerate(find_loops(node))}
         self.segment_mode = True
+        self.segment_start = start
         for d in node.decorator_list:
             self.dropped.add('decorator @' + ast.unparse(d))
         try:
